@@ -210,6 +210,56 @@ def bi_slice_get_unchecked(ex, f, a):
     return subslice(ex, s, st, en)
 
 
+@builtin(r'core::slice::<impl \[u8\]>::get::<usize>')
+def bi_slice_get_idx(ex, f, a):
+    s, i = a
+    c = simp(z3.ULT(as_bv(i, U), as_bv(s.len, U)))
+    k = ex.decide([c, s_not(c)])
+    return option(ex, f, SrcPtr(ex.add_off(s.off, i), ex.add_off(s.off, s.len)) if k == 0 else None)
+
+
+@builtin(r'core::slice::<impl \[u8\]>::get_unchecked::<usize>')
+def bi_slice_get_unchecked_idx(ex, f, a):
+    s, i = a
+    c = simp(z3.ULT(as_bv(i, U), as_bv(s.len, U)))
+    if ex.check(s_not(c)):
+        raise Violation('get_unchecked', f'<[u8]>::get_unchecked({i}) out of bounds (len {s.len})')
+    return SrcPtr(ex.add_off(s.off, i), ex.add_off(s.off, s.len))
+
+
+def _range_like(ex, f, s, r, is_str, checked):
+    """get / get_unchecked with RangeFrom, RangeTo, RangeFull, RangeInclusive arguments"""
+    name = f['name']
+    ln = s.len
+    if 'RangeFrom' in name:
+        st, en = r.fields[0], ln
+    elif 'RangeToInclusive' in name:
+        st, en = 0, ex.add_off(r.fields[0], 1)
+    elif 'RangeTo' in name:
+        st, en = 0, r.fields[0]
+    elif 'RangeFull' in name:
+        st, en = 0, ln
+    else:
+        raise EngineError('unsupported slice index type in ' + name)
+    c = in_range_cond(ex, s, st, en, is_str)
+    if checked:
+        i = ex.decide([c, s_not(c)])
+        return option(ex, f, subslice(ex, s, st, en) if i == 0 else None)
+    if ex.check(s_not(c)):
+        raise Violation('get_unchecked', f'get_unchecked({st}..{en}) precondition can fail (len {ln})')
+    return subslice(ex, s, st, en)
+
+
+@builtin(r'core::(str|slice)::<impl (str|\[u8\])>::get::<std::ops::Range(From|To|ToInclusive|Full)(<usize>)?>')
+def bi_get_rangelike(ex, f, a):
+    return _range_like(ex, f, a[0], a[1], 'impl str' in f['name'], True)
+
+
+@builtin(r'core::(str|slice)::<impl (str|\[u8\])>::get_unchecked::<std::ops::Range(From|To|ToInclusive|Full)(<usize>)?>')
+def bi_get_unchecked_rangelike(ex, f, a):
+    return _range_like(ex, f, a[0], a[1], 'impl str' in f['name'], False)
+
+
 @builtin(r'core::slice::<impl \[u8\]>::first')
 def bi_first(ex, f, a):
     s = a[0]
